@@ -32,3 +32,63 @@ Theorem C08_rule_starting_with_subderivation_partial : forall n T dr c p,
   (l_ptrs (c_left c) = [] -> l_full (c_left c) = false -> c_right c = null_state) ->
   rs_nonterminal n T dr rs_init c p = resume_of c p /\ rs_begin_nonterminal c p = resume_of c p.
 Proof. intros n T dr c p H. split; [apply nonterminal_from_init; exact H|reflexivity]. Qed.
+
+(* ---- every derivation -------------------------------------------------------------------------------------------
+   Hypotheses: the loader invariants TInv for the ARPA file M; no separate rest costs (e_rest = e_prob: every model type
+   except RestProbing); and the property's precondition as the tables see it -- the extension bit of a back-off is only
+   found on n-grams that are contexts of longer n-grams (the loaders set it for contexts and for non-zero back-offs, and
+   the precondition says only contexts have non-zero back-offs); unigrams are exempt (the synthesised <unk> carries +0.0).  LM/FlattenCheck.v gives a sound executable check of the
+   last two; LM/InvCheck.v of the first.
+   `good t`: every terminal is a known word and no inner rule applies <s>.  `flat` = Terminal applied word by word. *)
+From Kenlm Require Import LM.FlattenProofs LM.FlattenCheck LM.InvCheck.
+
+(* NonTerminal of a finished fragment is Terminal applied to each of its words (up to the left state being reported
+   complete once it holds N-1 pointers, which is what Finish() does anyway). *)
+Theorem C08_nonterminal_is_terminals : forall n T M, (2 <= n)%nat -> TInv n T M ->
+  (forall k e, T k = Some e -> e_rest e = e_prob e) ->
+  (forall k e, T k = Some e -> e_ext e = true -> (2 <= length k)%nat -> exists x, T (x :: k) <> None) ->
+  forall ws R, wf R -> Forall (known T) ws ->
+  norm n (rs_nonterminal n T false R (fst (rs_finish n (flat n T rs_init ws))) (snd (rs_finish n (flat n T rs_init ws)))) =
+  norm n (flat n T R ws).
+Proof. intros n T M Hn I Hr Hx ws R WR Hk. exact (nt_flat n Hn T M I Hr Hx ws R WR Hk). Qed.
+
+(* Any bracketing, any mix of Terminal / NonTerminal / BeginNonTerminal: the chart state and the score of a derivation
+   are those of scoring its words left to right with Terminal. *)
+Theorem C08_any_bracketing : forall n T M, (2 <= n)%nat -> TInv n T M ->
+  (forall k e, T k = Some e -> e_rest e = e_prob e) ->
+  (forall k e, T k = Some e -> e_ext e = true -> (2 <= length k)%nat -> exists x, T (x :: k) <> None) ->
+  forall bs t, good T t ->
+  eval_tree n T false bs t = rs_finish n (flat n T rs_init (yield t)).
+Proof. intros n T M Hn I Hr Hx bs t Hg. exact (proj1 (tree_flat n Hn T M I Hr Hx bs t Hg)). Qed.
+
+(* ... hence its total is the sum of the ARPA back-off scores of its words from the null context, and its right state
+   is the state of the whole word sequence *)
+Theorem C08_any_bracketing_total : forall n T M, (2 <= n)%nat -> TInv n T M ->
+  (forall k e, T k = Some e -> e_rest e = e_prob e) ->
+  (forall k e, T k = Some e -> e_ext e = true -> (2 <= length k)%nat -> exists x, T (x :: k) <> None) ->
+  forall bs t, good T t ->
+  snd (eval_tree n T false bs t) = fold_right Z.add 0 (spec_seq n M [] (yield t)) /\
+  c_right (fst (eval_tree n T false bs t)) = (if yield t then null_state else get_state n T (rev (yield t))).
+Proof. intros n T M Hn I Hr Hx bs t Hg. exact (any_bracketing_fragment n Hn T M I Hr Hx bs t Hg). Qed.
+
+(* A sentence: the root rule applies <s>, then any derivation: complete empty left state, the left-to-right right state,
+   and the sum of the ARPA back-off scores of the words after <s>. *)
+Theorem C08_any_bracketing_sentence : forall n T M, (2 <= n)%nat -> TInv n T M ->
+  (forall k e, T k = Some e -> e_rest e = e_prob e) ->
+  (forall k e, T k = Some e -> e_ext e = true -> (2 <= length k)%nat -> exists x, T (x :: k) <> None) ->
+  forall b fast items, good_items T items ->
+  eval_tree n T false (bos_state T b) (Rule true fast items) =
+  ({| c_left := {| l_ptrs := []; l_full := true |};
+      c_right := (if yield_items items then bos_state T b else get_state n T (rev (yield_items items) ++ [b])) |},
+   fold_right Z.add 0 (spec_seq n M [b] (yield_items items))).
+Proof.
+  intros n T M Hn I Hr Hx b fast items Hg.
+  exact (any_bracketing_sentence n Hn T M I Hr Hx (bos_state T b) eq_refl b fast items eq_refl Hg).
+Qed.
+
+(* the executable check of the two extra hypotheses is sound; with C01_inv_check_sound the harness establishes all
+   hypotheses of the theorems above for the tables of every generated estimator-like model *)
+Theorem C08_flat_hyp_check_sound : forall t, flat_hyp_check t = true ->
+  (forall k e, alookup t k = Some e -> e_rest e = e_prob e) /\
+  (forall k e, alookup t k = Some e -> e_ext e = true -> (2 <= length k)%nat -> exists x, alookup t (x :: k) <> None).
+Proof. exact flat_hyp_check_sound. Qed.
